@@ -95,7 +95,7 @@ PROPS = {
         "CWLLoopOutputLastStep._process_output returns the value of the iteration with the greatest numeric index retagged with the instance's tag, and a null value when "
         "no iteration ran. NOT decided here: LoopOutputStep.run (one output per loop instance, emitted when the instance is complete, never terminating early), "
         "LoopCombinatorStep.run's checklist of running instances and the LoopCombinator generators (async generators / event loops outside the current subset); "
-        "the run-time check exercises only the two policies.",
+        "the run-time check exercises only the two policies. The bounded driver also runs a real LoopCombinatorStep around 1..14 loop instances with different iteration counts (iterations in order, no termination before every instance finished).",
         "assumptions": [
             "Token.__init__, ListToken.__init__ and Token.retag (self.__class__(...)) are assumed contracts (plain field assignments / reflection)",
             "A-SORTED sorted(xs, key=k) returns a permutation of xs ordered by k (stable); the key lambda is evaluated as a pure specification",
